@@ -69,13 +69,18 @@ def run(ctx):
         'Added (harness/html_gen_x.py): NAME x FORM -- the raw-text names script/style in every syntactic form, also '
         'SELF-CLOSED (`<style />`, `<script src=.. />`, with JavaScript / markup / no type; no body, so the markup after '
         'it counts), and look-alikes of raw-text and void names (`scripts`, `STYLE`, `noscript`, `image`, `BR`) as '
-        'ordinary elements; NAME ALPHABET -- tag and attribute names over the whole documented name alphabet (XML '
-        'NameStartChar / NameChar up to U+1FFF, ranges hard-coded from the XML recommendation): random names mixing all '
+        'ordinary elements; NAME ALPHABET -- tag and attribute names over the whole XML name alphabet (XML 1.0 sect. 2.3 '
+        'NameStartChar / NameChar, all sixteen + six ranges up to U+EFFFF: CJK, Hangul, U+200C/U+200D, astral letters; '
+        'ranges hard-coded from the XML recommendation): random names mixing all '
         'blocks (letters, dependent signs, tone marks, digits of other scripts, unassigned code points) in random trees, '
-        'and a complete sweep: every code point of the alphabet in a tag name and two attribute names, first position '
-        '(when a NameStartChar) and later position (sweep documents are queried at 0, 1, the end and one position per '
-        'open tag; their scan events cover the whole text). Names beyond U+1FFF (CJK, astral) are outside the documented '
-        'alphabet and not generated (html_gen_x.NAMES_BEYOND_LIMIT off). All added documents also go through the model.')
+        'and a sweep: code points of the alphabet in a tag name and two attribute names, first position '
+        '(when a NameStartChar) and later position -- every code point up to U+218F; of the longer ranges the first and '
+        'last 0x40 code points, both neighbours of every multiple of 0x1000 (plane borders) and one per 0x100 (astral: '
+        '0x1000) block (sweep documents are queried at 0, 1, the end and one position per '
+        'open tag; their scan events cover the whole text). All added documents also go through the model. '
+        'Character classes name_start_char / name_char: implementation against the XML productions (oracle) and against '
+        'the model on U+0000..U+FFFF completely, every range border +-2 on all planes, every decimal digit, and a stride '
+        'over the astral planes (thorough: all of U+0000..U+10FFFF).')
     docs = []
     for name, obj in load_corpus('C09'):
         docs.append(('corpus:' + name, html_gen.doc_from_json(obj['doc'] if 'doc' in obj else obj)))
@@ -131,9 +136,43 @@ def run(ctx):
         job, i, a, b = dis[0]
         ctx.broken.append({'kind': 'correspondence', 'file': 'html-matcher:' + job[0], 'input': job[1][:400],
                            'opts': job[2], 'pos': None if i is None else job[3][i], 'impl': repr(a)[:300], 'model': repr(b)[:300]})
-    # character classes of the scanner: exhaustive over the planes the name grammar mentions
+    # character classes of the scanner: the implementation against the XML productions (oracle, no model needed) and
+    # against the model
+    cps = char_class_points(quick)
+    first_bad = None
+    n_bad = 0
+    for cp in cps:
+        got = hu.impl_char_classes(cp)
+        # str.isdecimal digits are NameChars of the library; the productions say [0-9], every other decimal digit is a
+        # NameStartChar of the productions anyway (checked here as well: the two columns must be equal)
+        want = [html_gen_x.is_xml_name_start(cp), html_gen_x.is_xml_name_char(cp)]
+        ctx.cover('char-class:%s' % ('name-start' if want[0] else 'name-char-only' if want[1] else 'no-name-char'))
+        if got[:2] != want:
+            n_bad += 1
+            if first_bad is None:
+                first_bad = (cp, got[:2], want)
+    ctx.count_eval(len(cps))
+    ctx.cov['char_class_points'] = len(cps)
+    if first_bad and not n_fail:
+        cp, got, want = first_bad
+        if want[1] and not got[1] or want[0] and not got[0]:
+            # a name character the matcher does not take: a well-formed document shows it
+            c = chr(cp)
+            name = (c if want[0] and not got[0] else 'x' + c) + 'z'
+            text = '<%s>t</%s>' % (name, name)
+            d = html_gen.doc_from_json({'text': text, 'xml': True, 'features': ['name-class'],
+                                        'events': [[name, 1, 0, len(name) + 2], [name, 2, len(name) + 3, len(text)]],
+                                        'roots': [{'name': name, 'etype': 1, 'open': [0, len(name) + 2],
+                                                   'close': [len(name) + 3, len(text)], 'attrs': [], 'children': []}]})
+            ctx.property_failure('c09:name-class:U+%04X' % cp,
+                                 'U+%04X is a %s of XML 1.0 sect. 2.3, the matcher says name_start_char=%r name_char=%r (%d code points differ); document %r'
+                                 % (cp, 'NameStartChar' if want[0] else 'NameChar', got[0], got[1], n_bad, text),
+                                 {'component': 'c09', 'doc': html_gen.doc_to_json(d), 'pos': 1, 'why': 'name class', 'source': 'char-classes'})
+            n_fail += 1
+        else:
+            ctx.broken.append({'kind': 'char-class-wider-than-xml', 'file': 'html-char-classes', 'code_point': 'U+%04X' % cp,
+                               'impl': got, 'xml': want, 'differ': n_bad})
     if model is not None:
-        cps = list(range(0, 0x2100)) + list(range(0xFF00, 0xFF70)) + [0x1D7CE, 0x1D7FF, 0x10FFFF, 0xD7FF, 0xE000]
         outs = model.run([[8, cp] for cp in cps], procs=4)
         nd = 0
         for cp, w in zip(cps, outs):
@@ -144,6 +183,24 @@ def run(ctx):
         ctx.cov['correspondence']['html_char_classes'] = {'cases': len(cps), 'disagreements': nd}
         if nd and not n_fail:
             ctx.broken.append({'kind': 'correspondence', 'file': 'html-char-classes', 'disagreements': nd})
+
+
+def char_class_points(quick):
+    """code points at which name_start_char / name_char / is_space / is_quote are compared: the whole BMP, both sides
+    (+-2) of every border of every range of the XML productions, plane borders, all decimal digits with their
+    neighbours, the surrogates' borders, a stride over the astral planes; thorough: every code point"""
+    if not quick:
+        return list(range(0, 0x110000))
+    out = set(range(0, 0x10000))
+    for a, b in html_gen_x.XML_NAME_START_RANGES + html_gen_x.XML_NAME_EXTRA_RANGES:
+        for x in (a, b):
+            out.update(range(max(0, x - 2), min(0x10FFFF, x + 2) + 1))
+    for plane in range(1, 17):
+        out.update(range((plane << 16) - 2, min(0x10FFFF, (plane << 16) + 2) + 1))
+    out.update(range(0x10FFFD, 0x110000))
+    out.update(range(0x10000, 0x110000, 0x95))
+    out.update(cp for cp in range(0x10000, 0x20000) if chr(cp).isdecimal() or chr(cp - 1).isdecimal() or chr(cp + 1).isdecimal())
+    return sorted(out)
 
 
 POISON_DOCS = ['<ul><li>a</li><li><b>x', '<div><p>q</p> z', '<a><b><c>', '</x></y>', '<p title="', '<!-- open', '<script>x<b>', '<i>t</i><u><s>']
